@@ -107,6 +107,24 @@ func genC14(c *Ctx) {
 	for n := 5; n <= redLen; n++ {
 		rec2(nil, n)
 	}
+	// byte sequences a lenient reader might strip or skip (byte order marks, zero-width and other invisible
+	// characters, NUL, blanks, tabs, form feeds, quotes, a data: prefix ...) before, after and inside valid text of
+	// each convention: none of the four standard decoders accepts them
+	{
+		junk := []string{"\xef\xbb\xbf", "\xfe\xff", "\xff\xfe", "\xe2\x80\x8b", "\xc2\xa0", "\xe2\x80\xa8", "\x00", " ", "\t", "\x0b", "\x0c", "\x1a", "\"", "'", "`",
+			"data:;base64,", "base64:", "b'", "=?", "\\n", "%0A", "%3D", "&#10;", "\x7f", "\x85", ".", ",", ";", ":", "~", "*", "(", ")"}
+		valid := []string{"", "QQ==", "QUI=", "QUJD", "QUJDRA", "QUJDREU", "QUJDREVG", "-_-_", "+/+/", "QUJD\nREVG\n", "QUJD\r\nREVG"}
+		for _, j := range junk {
+			for _, v := range valid {
+				c14One(c, "affix", []byte(j+v))
+				c14One(c, "affix", []byte(v+j))
+				if len(v) >= 4 {
+					c14One(c, "affix", []byte(v[:2]+j+v[2:]))
+					c14One(c, "affix", []byte(j+v+j))
+				}
+			}
+		}
+	}
 	// a padded quantum in the MIDDLE of otherwise valid text, at every quantum boundary up to 2 KiB
 	// (stream decoders treat input in chunks; padding is only legal at the very end)
 	step := 8
